@@ -82,18 +82,31 @@ class AV:
     """tags: what this value *is*; g / r: what its graph / registry field is (Circuit objects
     built with graph=/blackboxes=); elems: what it *contains* (container elements, registry values)."""
 
-    __slots__ = ("tags", "g", "r", "elems", "kind")
+    __slots__ = ("tags", "g", "r", "elems", "kind", "fields", "cls")
 
-    def __init__(self, tags=frozenset(), kind=None, g=frozenset(), r=frozenset(), elems=frozenset()):
+    def __init__(self, tags=frozenset(), kind=None, g=frozenset(), r=frozenset(), elems=frozenset(), fields=None, cls=None):
         self.tags = frozenset(tags)
         self.g = frozenset(g)
         self.r = frozenset(r)
         self.elems = frozenset(elems)
         self.kind = kind
+        # kind == "record": an instance of a helper class the package defines for its own use (NamedTuple, dataclass,
+        # small state object); `fields` maps attribute names to abstract values (field-sensitive), `cls` = (file, class)
+        self.fields = fields
+        self.cls = cls
 
     def join(self, other):
         if other is None:
             return self
+        if self.kind == "record" or other.kind == "record":
+            if self.kind == other.kind and self.cls == other.cls:
+                if self.fields is other.fields:
+                    return self
+                f = dict(self.fields)
+                for k, v in other.fields.items():
+                    f[k] = f[k].join(v) if k in f else v
+                return AV((), "record", fields=f, cls=self.cls)
+            return flatten_record(self).join(flatten_record(other))
         if self.kind == other.kind:
             k = self.kind
         elif self.kind and other.kind:
@@ -121,6 +134,20 @@ class AV:
 FRESH = AV()
 
 
+def flatten_record(av, depth=0):
+    """A record seen from outside the field-sensitive part of the analysis: a value that may be / may hold anything its
+    fields are or hold."""
+    if av.kind != "record" or depth > 4:
+        return av
+    tags, g, r, elems = set(), set(), set(), set()
+    for f in (av.fields or {}).values():
+        f = flatten_record(f, depth + 1)
+        elems |= set(f.tags) | set(f.elems)
+        g |= set(f.g)
+        r |= set(f.r)
+    return AV((), None, elems=elems | g | r)
+
+
 def compose(part0, rel):
     if rel == "self":
         return part0
@@ -128,6 +155,7 @@ def compose(part0, rel):
 
 
 def project(av, rel):
+    av = flatten_record(av)
     """Tags denoted by 'part `rel` of the value av'."""
     if rel == "self":
         return set(av.tags)
@@ -179,8 +207,25 @@ class Resolver:
             self.file_aliases[rel] = self._parse_imports(rel)
         # module-level dispatch tables: NAME = {key: function, ...} / (f, g, ...) / [f, g]
         self.function_tables = {}
+        self.tuple_classes = {}  # (file, NAME) -> [field names]   for NAME = namedtuple("NAME", ...)
+        self.row_tables = {}  # (file, NAME) -> [row expression nodes]   for NAME = [(a, lambda ...: ..., "msg"), ...]
+        self.accessors = {}  # (file, NAME) -> ('method' | 'attr', name)   for NAME = methodcaller("io") / attrgetter("x")
         for rel, tree in repo.tree.items():
             for st in tree.body:
+                if isinstance(st, ast.Assign) and len(st.targets) == 1 and isinstance(st.targets[0], ast.Name) and isinstance(st.value, ast.Call):
+                    cn = (dotted(st.value.func) or "").split(".")[-1]
+                    a0 = st.value.args
+                    if cn == "namedtuple" and len(a0) >= 2:
+                        fl = a0[1]
+                        if isinstance(fl, ast.Constant) and isinstance(fl.value, str):
+                            self.tuple_classes[(rel, st.targets[0].id)] = fl.value.replace(",", " ").split()
+                        elif isinstance(fl, (ast.List, ast.Tuple)) and all(isinstance(e, ast.Constant) for e in fl.elts):
+                            self.tuple_classes[(rel, st.targets[0].id)] = [e.value for e in fl.elts]
+                    elif cn in ("methodcaller", "attrgetter") and len(a0) == 1 and isinstance(a0[0], ast.Constant) and isinstance(a0[0].value, str) and not st.value.keywords:
+                        self.accessors[(rel, st.targets[0].id)] = ("method" if cn == "methodcaller" else "attr", a0[0].value)
+                if isinstance(st, ast.Assign) and len(st.targets) == 1 and isinstance(st.targets[0], ast.Name) and isinstance(st.value, (ast.Tuple, ast.List)) \
+                        and st.value.elts and all(isinstance(e, (ast.Tuple, ast.List)) for e in st.value.elts):
+                    self.row_tables[(rel, st.targets[0].id)] = list(st.value.elts)
                 if isinstance(st, ast.Assign) and len(st.targets) == 1 and isinstance(st.targets[0], ast.Name):
                     vals = st.value.values if isinstance(st.value, ast.Dict) else st.value.elts if isinstance(st.value, (ast.Tuple, ast.List)) else None
                     if not vals:
@@ -376,6 +421,13 @@ class FuncAnalysis:
         self.params = self.s.params
         self.ret_av = None
         self.fn_vars = {}  # local name -> [(file, qual)] of the repository functions it may denote
+        self.lambda_vars = {}  # local name -> [ast.Lambda] it may denote (columns of module-level rule tables, local lambdas)
+        self.accessor_vars = {}  # local name -> ('method' | 'attr', name) for methodcaller / attrgetter objects
+        self.partial_vars = {}  # local name -> (callee expression node, [bound AVs], {bound keyword AVs})
+        self.inline_stack = []
+        self.in_loop = 0
+        self.const_vars = {}  # loop variable -> [str constants] for `for kind in ("inputs", "outputs"):`
+        self.local_rows = {}  # local name -> [column, ...]; column = (lambdas, function keys): rule tables filtered / re-packed locally
 
     def function_targets(self, node):
         """Repository functions an expression may denote: a function name, TABLE[key], TABLE.get(key[, default])."""
@@ -525,6 +577,8 @@ class FuncAnalysis:
         pass
 
     def _ret(self, av):
+        if av.kind == "record" and not self.inline_stack:
+            av = flatten_record(av)  # summaries are field-insensitive
         self.ret_av = av if self.ret_av is None else self.ret_av.join(av)
 
     def st_Return(self, st):
@@ -550,6 +604,9 @@ class FuncAnalysis:
                 self.bind(e, elem_of(av))
         elif isinstance(target, ast.Attribute):
             recv = self.ev(target.value)
+            if recv.kind == "record":
+                recv.fields[target.attr] = av if target.attr not in recv.fields or not self.in_loop else recv.fields[target.attr].join(av)
+                return
             self.effect(recv, f"attribute store .{target.attr}", target)
             slot = {"graph": "g", "blackboxes": "r"}.get(target.attr, "elems")
             if slot == "elems":
@@ -568,9 +625,24 @@ class FuncAnalysis:
 
     def st_Assign(self, st):
         if len(st.targets) == 1 and isinstance(st.targets[0], ast.Name):
+            nm = st.targets[0].id
             ft = self.function_targets(st.value)
             if ft:
-                self.fn_vars[st.targets[0].id] = ft
+                self.fn_vars[nm] = ft
+            if isinstance(st.value, ast.Lambda):
+                self.lambda_vars[nm] = [st.value]
+            elif isinstance(st.value, ast.Call):
+                cn = (dotted(st.value.func) or "").split(".")[-1]
+                a0 = st.value.args
+                if cn in ("methodcaller", "attrgetter") and len(a0) == 1 and isinstance(a0[0], ast.Constant) and isinstance(a0[0].value, str) and not st.value.keywords:
+                    self.accessor_vars[nm] = ("method" if cn == "methodcaller" else "attr", a0[0].value)
+                elif cn in ("methodcaller", "attrgetter") and len(a0) == 1 and isinstance(a0[0], ast.Name) and a0[0].id in self.const_vars and not st.value.keywords:
+                    self.accessor_vars[nm] = ("method" if cn == "methodcaller" else "attr", list(self.const_vars[a0[0].id]))
+                elif cn == "partial" and a0:
+                    self.partial_vars[nm] = (a0[0], [self.ev(x) for x in a0[1:]], {k.arg: self.ev(k.value) for k in st.value.keywords if k.arg})
+            dr = self.derived_rows(st.value)
+            if dr is not None:
+                self.local_rows[nm] = dr
         if len(st.targets) == 1 and isinstance(st.targets[0], (ast.Tuple, ast.List)) and isinstance(st.value, (ast.Tuple, ast.List)) and len(st.targets[0].elts) == len(st.value.elts):
             vals = [self.ev(v) for v in st.value.elts]
             for te, v in zip(st.targets[0].elts, vals):
@@ -607,24 +679,80 @@ class FuncAnalysis:
             elif isinstance(t, ast.Name):
                 self.env.pop(t.id, None)
 
+    def table_columns(self, node):
+        """Columns of a table of rows an expression denotes: a module-level `NAME = ((a, lambda ...: ..., "msg"), ...)`, a local
+        name derived from one by a comprehension that filters / re-packs rows."""
+        if not isinstance(node, ast.Name):
+            return None
+        if node.id in self.local_rows:
+            return self.local_rows[node.id]
+        if (self.rel, node.id) in self.an.res.row_tables and node.id not in self.env:
+            rows = self.an.res.row_tables[(self.rel, node.id)]
+            width = max(len(r.elts) for r in rows)
+            cols = []
+            for i in range(width):
+                lams, fns = [], []
+                for row in rows:
+                    if i < len(row.elts):
+                        cell = row.elts[i]
+                        if isinstance(cell, ast.Lambda):
+                            lams.append(cell)
+                        elif isinstance(cell, (ast.Name, ast.Attribute)):
+                            t = self.an.res.resolve(self.rel, dotted(cell), self.fi)
+                            if t and t[0] == "func":
+                                fns.append((t[1], t[2]))
+                cols.append((lams, fns))
+            return cols
+        return None
+
+    def derived_rows(self, comp):
+        """[(violated, message) for flag, violated, message in RULES if ...] -> the columns of the new rows."""
+        if not isinstance(comp, (ast.ListComp, ast.GeneratorExp, ast.SetComp)) or len(comp.generators) != 1:
+            return None
+        g = comp.generators[0]
+        cols = self.table_columns(g.iter)
+        if cols is None or not isinstance(g.target, (ast.Tuple, ast.List)):
+            return None
+        pos = {te.id: i for i, te in enumerate(g.target.elts) if isinstance(te, ast.Name)}
+        elts = comp.elt.elts if isinstance(comp.elt, (ast.Tuple, ast.List)) else None
+        if elts is None:
+            return None
+        return [cols[pos[e.id]] if isinstance(e, ast.Name) and e.id in pos and pos[e.id] < len(cols) else ([], []) for e in elts]
+
     def st_For(self, st):
         it = self.ev(st.iter)
         el = elem_of(it)
+        # `for flag, violated, message in RULES:` over a table of rows: the columns that hold lambdas / functions
+        cols = self.table_columns(st.iter) or self.derived_rows(st.iter)
+        if cols is not None and isinstance(st.target, (ast.Tuple, ast.List)):
+            for i, te in enumerate(st.target.elts):
+                if isinstance(te, ast.Name) and i < len(cols):
+                    lams, fns = cols[i]
+                    if lams:
+                        self.lambda_vars[te.id] = lams
+                    if fns:
+                        self.fn_vars[te.id] = fns
+        if isinstance(st.target, ast.Name) and isinstance(st.iter, (ast.Tuple, ast.List)) and st.iter.elts and all(isinstance(e, ast.Constant) and isinstance(e.value, str) for e in st.iter.elts):
+            self.const_vars[st.target.id] = [e.value for e in st.iter.elts]
         before = dict(self.env)
+        self.in_loop += 1
         for _ in range(2):
             self.bind(st.target, el)
             self.block(st.body)
             self.env = self.join_env(before, self.env)
+        self.in_loop -= 1
         self.block(st.orelse)
 
     st_AsyncFor = st_For
 
     def st_While(self, st):
         before = dict(self.env)
+        self.in_loop += 1
         for _ in range(2):
             self.ev(st.test)
             self.block(st.body)
             self.env = self.join_env(before, self.env)
+        self.in_loop -= 1
         self.block(st.orelse)
 
     def st_If(self, st):
@@ -704,6 +832,8 @@ class FuncAnalysis:
     def ex_Attribute(self, n):
         base = self.ev(n.value)
         a = n.attr
+        if base.kind == "record":
+            return self.record_attr(base, a, n)
         if a == "graph" and base.kind in ("Circuit", None):
             tags = {(p, "graph") for (p, part) in base.tags if part == "self"} | {(p, "attrdict") for (p, part) in base.tags if part in ("graph", "nodeview")} | set(base.g)
             tags |= {(p, part) for (p, part) in base.tags if part not in ("self", "graph", "nodeview") and part not in BB_PARTS and base.kind is None}
@@ -755,6 +885,15 @@ class FuncAnalysis:
             else:
                 tags.add((p, part))
         return AV(tags, kind)
+
+    def ex_BinOp(self, n):
+        """`a | b`, `a + b`, `a - b` ... on containers build a NEW container holding (some of) the operands' elements; on
+        scalars a new scalar.  The elements of a BlackBox's pin set are pin names (immutable), so `bb.inputs() | bb.outputs()`
+        holds nothing of the BlackBox."""
+        out = set()
+        for a in (self.ev(n.left), self.ev(n.right)):
+            out |= {t for t in elem_of(a).tags if t[1] in BB_PARTS}
+        return AV((), None, elems=out)
 
     def ex_BoolOp(self, n):
         out = FRESH
@@ -839,7 +978,64 @@ class FuncAnalysis:
                 self.an.resolved_sites += 1
                 return self.construct(n, target, argav, kwav)
             recv = self.ev(f.value)
+            if recv.kind == "record":
+                return self.call_record_method(n, recv, f.attr, argav, kwav)
             return self.call_method(n, recv, f.attr, argav, kwav)
+        if isinstance(f, ast.Name):
+            is_local = f.id in self.env
+            acc = self.accessor_vars.get(f.id) or (None if is_local else self.an.res.accessors.get((self.rel, f.id)))
+            if acc and argav:
+                out = None
+                for name_ in (acc[1] if isinstance(acc[1], list) else [acc[1]]):
+                    if acc[0] == "attr":
+                        fake = ast.copy_location(ast.Attribute(value=n.args[0], attr=name_, ctx=ast.Load()), n)
+                        av = self.ex_Attribute(fake)
+                    elif argav[0].kind == "record":
+                        av = self.call_record_method(n, argav[0], name_, argav[1:], kwav)
+                    else:
+                        av = self.call_method(n, argav[0], name_, argav[1:], kwav)
+                    out = av if out is None else out.join(av)
+                return out
+            if f.id in self.lambda_vars:
+                out = None
+                for lam in self.lambda_vars[f.id]:
+                    saved = dict(self.env)
+                    for p_, av_ in zip(func_params_lambda(lam), argav):
+                        self.env[p_] = av_
+                    for k_, av_ in kwav.items():
+                        if k_:
+                            self.env[k_] = av_
+                    av = self.ev(lam.body)
+                    self.env = saved
+                    out = av if out is None else out.join(av)
+                self.an.resolved_sites += 1
+                return out if out is not None else FRESH
+            if f.id in self.partial_vars:
+                callee, bound, bkw = self.partial_vars[f.id]
+                fake = ast.copy_location(ast.Call(func=callee, args=[], keywords=[]), n)
+                ft2 = self.function_targets(callee) if isinstance(callee, (ast.Name, ast.Subscript)) else None
+                if ft2 is None and isinstance(callee, (ast.Name, ast.Attribute)):
+                    t2 = self.an.res.resolve(self.rel, dotted(callee), self.fi)
+                    if t2 and t2[0] == "func":
+                        ft2 = [(t2[1], t2[2])]
+                if ft2:
+                    self.an.resolved_sites += 1
+                    out = None
+                    for key in ft2:
+                        av = self.apply_summary(fake, self.an.summ[key], list(bound) + list(argav), {**bkw, **kwav}, None)
+                        out = av if out is None else out.join(av)
+                    return out
+                if isinstance(callee, ast.Attribute):
+                    recv = self.ev(callee.value)
+                    if recv.kind == "record":
+                        return self.call_record_method(n, recv, callee.attr, list(bound) + list(argav), {**bkw, **kwav})
+                    return self.call_method(n, recv, callee.attr, list(bound) + list(argav), {**bkw, **kwav})
+            if not is_local and (self.rel, f.id) in self.an.res.tuple_classes:
+                self.an.resolved_sites += 1
+                return self.construct_record(n, self.rel, f.id, argav, kwav, fields=self.an.res.tuple_classes[(self.rel, f.id)])
+            if f.id == "cls" and self.fi.cls and (self.rel, self.fi.cls) in self.repo.classes and self.fi.cls not in ("Circuit", "BlackBox"):
+                self.an.resolved_sites += 1
+                return self.construct_record(n, self.rel, self.fi.cls, argav, kwav)
         ft = self.function_targets(f) if isinstance(f, (ast.Subscript, ast.Call)) or (isinstance(f, ast.Name) and f.id in self.fn_vars) else None
         if ft:
             self.an.resolved_sites += 1
@@ -869,8 +1065,136 @@ class FuncAnalysis:
                 actual[k] = av
         return actual
 
+    # ---- helper classes of the package (records) ----------------------------
+    def record_fields_of(self, rel, cname):
+        cdef = self.repo.classes.get((rel, cname))
+        if cdef is None:
+            return None
+        names = []
+        for b in cdef.bases:
+            bn = (dotted(b) or "").split(".")[-1]
+            if (rel, bn) in self.repo.classes:
+                names += self.record_fields_of(rel, bn) or []
+        for st in cdef.body:
+            if isinstance(st, ast.AnnAssign) and isinstance(st.target, ast.Name) and "ClassVar" not in ast.unparse(st.annotation):
+                names.append(st.target.id)
+        return names
+
+    def find_method(self, rel, cname, mname, depth=0):
+        if (rel, f"{cname}.{mname}") in self.repo.funcs:
+            return self.repo.funcs[(rel, f"{cname}.{mname}")]
+        cdef = self.repo.classes.get((rel, cname))
+        if cdef is not None and depth < 4:
+            for b in cdef.bases:
+                bn = (dotted(b) or "").split(".")[-1]
+                if (rel, bn) in self.repo.classes:
+                    m = self.find_method(rel, bn, mname, depth + 1)
+                    if m is not None:
+                        return m
+        return None
+
+    def inline_call(self, fi, actual, n):
+        """Analyse a method of a helper class in the caller's context (its abstract values carry the caller's parameter
+        tags, its effects land in the caller's summary).  Bounded depth; recursion falls back to a flattened result."""
+        key = (fi.file, fi.qual)
+        if key in self.inline_stack or len(self.inline_stack) >= 5:
+            out = set()
+            for a in actual.values():
+                out |= flat(flatten_record(a))
+            return AV((), None, elems=out)
+        sub = FuncAnalysis(self.an, fi)
+        sub.s = self.s
+        sub.inline_stack = self.inline_stack + [key]
+        env = {}
+        for p in func_params(fi.node):
+            env[p] = actual.get(p, FRESH)
+        a = fi.node.args
+        if a.vararg:
+            env[a.vararg.arg] = FRESH
+        if a.kwarg:
+            env[a.kwarg.arg] = FRESH
+        sub.env = env
+        saved_returns = self.s.returns_seen
+        sub.block(fi.node.body)
+        self.s.returns_seen = saved_returns
+        return sub.ret_av if sub.ret_av is not None else FRESH
+
+    def construct_record(self, n, rel, cname, argav, kwav, fields=None):
+        rec = AV((), "record", fields={}, cls=(rel, cname))
+        init = self.find_method(rel, cname, "__init__") if fields is None else None
+        if init is not None:
+            params = func_params(init.node)
+            actual = {params[0]: rec} if params else {}
+            actual.update(self.bind_actuals(params[1:], argav, kwav))
+            self.inline_call(init, actual, n)
+            return rec
+        names = fields if fields is not None else (self.record_fields_of(rel, cname) or [])
+        for nm, av in zip(names, argav):
+            rec.fields[nm] = av
+        for k, av in kwav.items():
+            if k is not None:
+                rec.fields[k] = av
+        extra = argav[len(names):]
+        if extra:
+            rec.fields["*"] = AV((), None, elems=set().union(*[flat(flatten_record(a)) for a in extra]))
+        post = self.find_method(rel, cname, "__post_init__") if fields is None else None
+        if post is not None:
+            self.inline_call(post, {func_params(post.node)[0]: rec}, n)
+        return rec
+
+    def record_attr(self, base, attr, n):
+        if attr in base.fields:
+            return base.fields[attr]
+        if base.cls is not None:
+            m = self.find_method(base.cls[0], base.cls[1], attr)
+            if m is not None:
+                decs = {ast.unparse(d).split(".")[-1].split("(")[0] for d in m.node.decorator_list}
+                if decs & {"property", "cached_property"}:
+                    return self.inline_call(m, {func_params(m.node)[0]: base}, n)
+                return FRESH  # a bound method object
+            cdef = self.repo.classes.get(base.cls)
+            if cdef is not None:
+                for st in cdef.body:
+                    if isinstance(st, ast.Assign) and any(isinstance(t, ast.Name) and t.id == attr for t in st.targets):
+                        return FRESH  # class attribute: a constant / table
+        if attr in ("_replace", "_asdict", "_fields", "index", "count"):
+            return FRESH
+        return flatten_record(base)
+
+    def call_record_method(self, n, recv, mname, argav, kwav):
+        if mname == "_replace":
+            f = dict(recv.fields)
+            for k, av in kwav.items():
+                if k is not None:
+                    f[k] = av
+            return AV((), "record", fields=f, cls=recv.cls)
+        if mname in ("_asdict", "index", "count"):
+            return flatten_record(recv)
+        m = self.find_method(recv.cls[0], recv.cls[1], mname) if recv.cls is not None else None
+        if m is None:
+            if mname in recv.fields:  # a callable stored in a field (a bound method alias, a function)
+                out = set()
+                for a in list(argav) + list(kwav.values()):
+                    out |= bb_tags(flatten_record(a))
+                return AV((), None, elems=out)
+            return self.call_unknown(n, f"<{recv.cls[1] if recv.cls else 'record'}>.{mname}", [flatten_record(a) for a in argav], {k: flatten_record(v) for k, v in kwav.items()})
+        decs = {ast.unparse(d).split(".")[-1].split("(")[0] for d in m.node.decorator_list}
+        params = func_params(m.node)
+        if "staticmethod" in decs:
+            actual = self.bind_actuals(params, argav, kwav)
+        elif "classmethod" in decs:
+            actual = self.bind_actuals(params[1:], argav, kwav)
+        else:
+            actual = {params[0]: recv} if params else {}
+            actual.update(self.bind_actuals(params[1:], argav, kwav))
+        return self.inline_call(m, actual, n)
+
     def construct(self, n, target, argav, kwav):
         _, rel, cname = target
+        if cname not in ("Circuit", "BlackBox") and (rel, cname) in self.repo.classes:
+            bases = {(dotted(b) or "").split(".")[-1] for b in self.repo.classes[(rel, cname)].bases}
+            if not (bases & {"Transformer", "Exception", "ValueError", "Warning"}):
+                return self.construct_record(n, rel, cname, argav, kwav)
         init = self.an.summ.get((rel, f"{cname}.__init__"))
         kind = cname if cname in ("Circuit", "BlackBox") else None
         g, r, elems = set(), set(), set()
@@ -906,6 +1230,10 @@ class FuncAnalysis:
                 av = self.apply_summary(n, self.an.summ[(m.file, m.qual)], argav, kwav, recv)
                 out = av if out is None else out.join(av)
             if exact:
+                return out
+            # a method name that only the repository's classes define (add_subcircuit, fill_blackbox, uid ...) can only be
+            # reached on one of them: the generic "unknown library method may keep its arguments" fallback does not apply
+            if mname not in MUTATOR_METHODS and mname not in PURE_VIEW_METHODS and mname not in PURE_FRESH_METHODS and mname not in ("copy", "values", "items", "keys", "get", "__iter__"):
                 return out
         lib = self.lib_method(n, recv, mname, argav, kwav)
         return lib if out is None else out.join(lib)
@@ -986,6 +1314,8 @@ class FuncAnalysis:
         return AV((), None, elems=out)
 
     def call_unknown(self, n, name, argav, kwav):
+        argav = [flatten_record(a) for a in argav]
+        kwav = {k: flatten_record(v) for k, v in kwav.items()}
         allargs = list(argav) + list(kwav.values())
         base = name.split(".")[-1] if name else name
         if base == "deepcopy" and allargs:
@@ -1079,16 +1409,19 @@ def func_params_lambda(n):
 
 
 def bb_tags(av):
+    av = flatten_record(av)
     return {t for t in av.tags | av.elems if t[1] in BB_PARTS}
 
 
 def flat(av):
     """Everything a value is or holds (used when it is put into a container)."""
+    av = flatten_record(av)
     return set(av.tags) | set(av.g) | set(av.r) | set(av.elems)
 
 
 def elem_of(av):
     """Abstract element obtained by iterating / unpacking / popping from av."""
+    av = flatten_record(av)
     if av.kind in ("Circuit", "Graph"):
         return FRESH  # iterating a circuit / graph yields node names
     tags = set(av.elems)
